@@ -24,6 +24,13 @@ def run(ctx) -> None:
     ctx.rule("C08.R3", "insert_hugr performs no store / mutator call on the source HUGR", floor=1)
     ctx.rule("C08.R4", "the copy loop visits parents before children by following the hierarchy (indices are reused)", floor=1)
     ctx.rule("C08.R5", "insert_nested/insert_cfg/insert_conditional/insert_tail_loop delegate to _insert_nested_impl with the argument order of their add_* twins", floor=6)
+    insert_core(ctx)
+    insert_wrappers(ctx)
+    from .. import lints
+    lints.arm(ctx)
+
+
+def insert_core(ctx, R1="C08.R1", R2="C08.R2", R3="C08.R3", R4="C08.R4") -> None:
     prog = ctx.program
     hugr = prog.cls(f"{BASE}.Hugr")
     nd = prog.cls(f"{BASE}.NodeData")
@@ -57,35 +64,35 @@ def run(ctx) -> None:
     want = {"op": (0, f"{dv}.op"), "num_outs": (2, f"{dv}._num_outs"), "metadata": (3, f"{dv}.metadata")}
     for fname, (pos, expr) in want.items():
         a = kwarg(add, fname, pos)
-        ctx.check(a is not None and u(a) == expr, "C08.R1", f"Hugr.insert_hugr: {fname} transferred", file, add.lineno,
+        ctx.check(a is not None and u(a) == expr, R1, f"Hugr.insert_hugr: {fname} transferred", file, add.lineno,
                   f"the copy of a node must be created with {fname}={expr} of the source node", add, expected=expr, found=u(a))
     pa = kwarg(add, "parent", 1)
     pexpr = follow_local(nl, pa) if pa is not None else None
     ok = isinstance(pexpr, ast.IfExp) and u(pexpr.body) == f"mapping[{dv}.parent]" and u(pexpr.test) in (f"{dv}.parent", f"{dv}.parent is not None") and u(pexpr.orelse) == par_p
-    ctx.check(ok, "C08.R1", "Hugr.insert_hugr: parent mapped", file, add.lineno,
+    ctx.check(ok, R1, "Hugr.insert_hugr: parent mapped", file, add.lineno,
               "a copied node hangs under the image of its parent; the image of the source root hangs under the requested parent", add,
               expected=f"mapping[{dv}.parent] if {dv}.parent else {par_p}", found=u(pexpr))
     st = [x for x in ast.walk(nl) if isinstance(x, ast.Subscript) and u(x.value) == "mapping" and isinstance(x.ctx, ast.Store)]
-    ctx.check(len(st) == 1 and u(st[0].slice) == nv, "C08.R1", "Hugr.insert_hugr: mapping complete", file, nl.lineno,
+    ctx.check(len(st) == 1 and u(st[0].slice) == nv, R1, "Hugr.insert_hugr: mapping complete", file, nl.lineno,
               "every node of the source must be recorded in the returned mapping under its own handle", nl)
     covered = {"op", "_num_outs", "metadata"} | set(DERIVED)
     for f in nd.all_fields():
-        ctx.check(f.name in covered, "C08.R1", f"NodeData.{f.name}: accounted for", nd.module.path, f.node.lineno,
+        ctx.check(f.name in covered, R1, f"NodeData.{f.name}: accounted for", nd.module.path, f.node.lineno,
                   f"NodeData field {f.name} is neither transferred by insert_hugr nor on the derived list: the embedded copy would lose it", f.node,
                   detail=DERIVED.get(f.name, "transferred"))
     no_filter = not any(isinstance(x, (ast.Continue, ast.Break)) for x in ast.walk(nl)) and not any(isinstance(x, ast.If) for x in nl.body)
-    ctx.check(no_filter, "C08.R1", "Hugr.insert_hugr: no node skipped", file, nl.lineno, "the copy loop must not skip nodes", nl)
+    ctx.check(no_filter, R1, "Hugr.insert_hugr: no node skipped", file, nl.lineno, "the copy loop must not skip nodes", nl)
     rets = [r for r in ast.walk(ih) if isinstance(r, ast.Return)]
-    ctx.check(len(rets) == 1 and u(rets[0].value) == "mapping", "C08.R1", "Hugr.insert_hugr: returns the mapping", file, ih.lineno, "", ih)
+    ctx.check(len(rets) == 1 and u(rets[0].value) == "mapping", R1, "Hugr.insert_hugr: returns the mapping", file, ih.lineno, "", ih)
     # add_node defaults a missing parent to the root of the target
     an = hugr.methods.get("add_node")
-    ctx.check(an is not None and "parent = parent or self.root" in u(an), "C08.R1", "Hugr.add_node: default parent", file, an.lineno if an else 1,
+    ctx.check(an is not None and "parent = parent or self.root" in u(an), R1, "Hugr.add_node: default parent", file, an.lineno if an else 1,
               "without a requested parent the inserted root hangs under the target's root", an)
     # ---- R2
     it = u(ll.iter)
-    ctx.check(it in (f"{src_p}._links.items()", f"{src_p}.links()"), "C08.R2", "Hugr.insert_hugr: all links", file, ll.lineno,
+    ctx.check(it in (f"{src_p}._links.items()", f"{src_p}.links()"), R2, "Hugr.insert_hugr: all links", file, ll.lineno,
               "the link loop must range over every link of the source (sub-offset order gives multiplicity and order on multi-ports)", ll, found=it)
-    ctx.check(not any(isinstance(x, (ast.If, ast.Continue, ast.Break)) for x in ast.walk(ll)), "C08.R2", "Hugr.insert_hugr: no link skipped", file, ll.lineno, "", ll)
+    ctx.check(not any(isinstance(x, (ast.If, ast.Continue, ast.Break)) for x in ast.walk(ll)), R2, "Hugr.insert_hugr: no link skipped", file, ll.lineno, "", ll)
     al = calls_in(ll, "add_link")[0]
     sv, tv = (u(ll.target.elts[0]), u(ll.target.elts[1])) if isinstance(ll.target, ast.Tuple) else ("?", "?")
     via_sub = it.endswith("_links.items()")
@@ -93,11 +100,11 @@ def run(ctx) -> None:
     t_port = f"{tv}.port" if via_sub else tv
     want_args = [f"mapping[{s_port}.node].out({s_port}.offset)", f"mapping[{t_port}.node].inp({t_port}.offset)"]
     got_args = [u(a) for a in al.args]
-    ctx.check(got_args == want_args, "C08.R2", "Hugr.insert_hugr: endpoints", file, al.lineno,
+    ctx.check(got_args == want_args, R2, "Hugr.insert_hugr: endpoints", file, al.lineno,
               "each link is re-added from the image of its source node's out-port to the image of its target node's in-port with the same offsets "
               "(including -1 for order links)", al, expected=", ".join(want_args), found=", ".join(got_args))
     order = ih.body.index(nl) < ih.body.index(ll) if nl in ih.body and ll in ih.body else True
-    ctx.check(order, "C08.R2", "Hugr.insert_hugr: links after nodes", file, ll.lineno, "links can only be mapped once all nodes are", ll)
+    ctx.check(order, R2, "Hugr.insert_hugr: links after nodes", file, ll.lineno, "links can only be mapped once all nodes are", ll)
     # ---- R3
     bad = []
     derived = {src_p, dv, nv}
@@ -117,19 +124,24 @@ def run(ctx) -> None:
                 root = root.value if not isinstance(root, ast.Call) else root.func
             if isinstance(root, ast.Name) and root.id in derived and n.func.attr not in ("items",):
                 bad.append(n)
-    ctx.check(not bad, "C08.R3", "Hugr.insert_hugr: source untouched", file, (bad[0].lineno if bad else ih.lineno),
+    ctx.check(not bad, R3, "Hugr.insert_hugr: source untouched", file, (bad[0].lineno if bad else ih.lineno),
               f"insert_hugr modifies the inserted HUGR (`{u(bad[0])[:80] if bad else ''}`): B itself must not be modified", bad[0] if bad else ih)
     # ---- R4
     reuse = index_reuse_possible(hugr)
     needs = any(isinstance(x, ast.Subscript) and u(x.value) == "mapping" and isinstance(x.ctx, ast.Load) and "parent" in u(x.slice) for x in ast.walk(nl))
     h2 = hierarchy_helper(hugr, follow_local(ih, nl.iter))
     if reuse is None or not needs:
-        ctx.ok("C08.R4", "Hugr.insert_hugr: visiting order", "no dependence on parent-first order")
+        ctx.ok(R4, "Hugr.insert_hugr: visiting order", "no dependence on parent-first order")
     else:
-        ctx.check(h2 is not None, "C08.R4", "Hugr.insert_hugr: visiting order", file, nl.lineno,
+        ctx.check(h2 is not None, R4, "Hugr.insert_hugr: visiting order", file, nl.lineno,
                   f"the copy loop relies on parents being visited before children but iterates `{u(nl.iter)}` (index order); with reused indices "
                   "a child comes first and insertion raises ParentBeforeChild instead of returning a mapping", nl,
                   detail=f"order from {h2.name if h2 else ''}()")
+
+
+def insert_wrappers(ctx, R5="C08.R5") -> None:
+    prog = ctx.program
+    hugr = prog.cls(f"{BASE}.Hugr")
     # ---- R5
     df = prog.cls("hugr.build.dfg.DfBase")
     dfile = df.module.path
@@ -146,7 +158,7 @@ def run(ctx) -> None:
     ok = f"self.hugr.insert_hugr({b}.hugr, self.parent_node)" in src and f"self._wire_up(mapping[{b}.parent_node], args)" in src
     rets = [r for r in ast.walk(impl) if isinstance(r, ast.Return)]
     ok = ok and len(rets) == 1 and u(rets[0].value) == f"mapping[{b}.parent_node]"
-    ctx.check(ok, "C08.R5", "DfBase._insert_nested_impl", dfile, impl.lineno,
+    ctx.check(ok, R5, "DfBase._insert_nested_impl", dfile, impl.lineno,
               "the inserted builder's HUGR goes under this builder's parent node, the given wires are connected to the image of its root, which is returned", impl)
     table = {
         "insert_nested": ("dfg", "(*args,)"),
@@ -169,7 +181,7 @@ def run(ctx) -> None:
             got_rest = nf.ev(ast.Tuple(elts=call.args[1:], ctx=ast.Load()), env)
             want_rest = nf.ev(ast.parse(rest, mode="eval").body, env)
             ok = got_first == m.args.args[1].arg and _flatten(got_rest) == _flatten(want_rest)
-        ctx.check(ok, "C08.R5", f"DfBase.{name}", dfile, m.lineno,
+        ctx.check(ok, R5, f"DfBase.{name}", dfile, m.lineno,
                   f"{name} must call _insert_nested_impl({m.args.args[1].arg}, {rest[1:-1].rstrip(',')}) -- the same wire order its add_* twin uses", m,
                   found=u(rb[0]) if rb else "")
     # twins: add_conditional wires (cond_wire, *args); add_tail_loop wires (*just_inputs, *rest)
@@ -183,7 +195,10 @@ def run(ctx) -> None:
             if isinstance(s, ast.Assign) and isinstance(s.targets[0], ast.Name) and s.targets[0].id == "args":
                 env.vars["args"] = nf.ev(s.value, env)
         ok = len(wu) == 1 and _flatten(nf.ev(wu[0].args[1], env)) == _flatten(nf.ev(ast.parse(want, mode="eval").body, Env(df.module, df, {a.arg: sym(a.arg) for a in m.args.args} | ({m.args.vararg.arg: sym(m.args.vararg.arg)} if m.args.vararg else {}), {})))
-        ctx.check(ok, "C08.R5", f"DfBase.{name}: wire order", dfile, m.lineno, f"{name} wires {want}", m)
+        ctx.check(ok, R5, f"DfBase.{name}: wire order", dfile, m.lineno, f"{name} wires {want}", m)
+
+
+
 
 
 def _flatten(t):
